@@ -451,6 +451,16 @@ def check_property(ctx, case, role, mcfg, own, peer, outcome):
                  case=case, expected="IncompatiblePeer", observed=got)
         return
     want = to_local_remote(role, exp)
+    # each side's recorded choice must be offered by BOTH KEXINITs in its category
+    cl_, sv_ = (own, peer) if role == "Client" else (peer, own)
+    c2s_view = [got[0], got[1]] + ([got[2], got[3], got[4], got[5], got[6], got[7]] if role == "Client" else
+                                   [got[3], got[2], got[5], got[4], got[7], got[6]])
+    for i in range(8):
+        if c2s_view[i] not in cl_[i] or c2s_view[i] not in sv_[i]:
+            ctx.fail("not-offered-by-both-" + CAT8_TYPE[i],
+                     "%s: the recorded algorithm %r is not listed by %s" % (
+                         CAT8[i], c2s_view[i], "the client" if c2s_view[i] not in cl_[i] else "the server"),
+                     case=case, expected=want, observed=got)
     slot_cat = ["kex", "hostkey"] + (["enc_c2s", "enc_s2c", "mac_c2s", "mac_s2c", "comp_c2s", "comp_s2c"]
                                       if role == "Client" else
                                       ["enc_s2c", "enc_c2s", "mac_s2c", "mac_c2s", "comp_s2c", "comp_c2s"])
@@ -564,6 +574,94 @@ def run_pair(ctx, st, cfg_c, cfg_s, cases_adv, cases_neg, kind="pair"):
 def swap_lr(lr):
     """[kex, hk, local, remote, ...] of one side as seen from the other side."""
     return [lr[0], lr[1], lr[3], lr[2], lr[5], lr[4], lr[7], lr[6]]
+
+
+# ---------------------------------------------------------------------------------------------
+# fail-iff grid: every category emptied x every agreed value of the other categories
+
+
+BASE_KEYS = ["ssh-ed25519", "ecdsa-sha2-nistp256", "ecdsa-sha2-nistp384", "ecdsa-sha2-nistp521", "rsa-sha2-512",
+             "rsa-sha2-256", "ssh-rsa"]
+
+
+def grid_values(st, role, typ):
+    t = list(st["tables"][typ])
+    if typ == "keys" and role == "Server":
+        t = [n for n in t if n in BASE_KEYS]          # what the five test host keys answer to
+    return t
+
+
+def grid_case(rng, st, role, typ, v, empty_cat):
+    """Local state whose first choice of type `typ` is table entry v, and a peer KEXINIT that agrees on v
+    there, is compatible everywhere else, except that category `empty_cat` (or None) has no common name."""
+    prefs, peer = {}, [None] * 8
+    for c in CATS:
+        table = grid_values(st, role, c)
+        if c == typ:
+            rest = [n for n in table if n != v]
+            prefs[c] = [v] + rng.sample(rest, min(len(rest), rng.randrange(1, 3)))
+        else:
+            prefs[c] = rng.sample(table, min(len(table), rng.randrange(2, 4)))
+    for i, c in enumerate(CAT8_TYPE):
+        own = prefs[c]
+        if c == typ and i != empty_cat:
+            peer[i] = [v] + [n for n in rng.sample(st["tables"][c], 2) if n != v][:1]
+        else:
+            peer[i] = rng.sample(own, rng.randrange(1, len(own) + 1)) + rng.sample(UNKNOWN[:1], rng.randrange(0, 2))
+            rng.shuffle(peer[i])
+    if empty_cat is not None:
+        c = CAT8_TYPE[empty_cat]
+        own = prefs[c] + [n + CERT for n in prefs[c]]
+        foreign = [n for n in st["tables"][c] if n not in own]
+        peer[empty_cat] = rng.choice([[], [UNKNOWN[0]], foreign[:3] or [UNKNOWN[4]], foreign[-2:] + [UNKNOWN[0]]])
+    if rng.random() < 0.5:
+        peer[0] = peer[0] + [rng.choice(MARKERS)]
+    cfg = {"prefs": prefs, "disabled": {c: [] for c in CATS}, "skeys": sorted(st["keys"]) if role == "Server" else [],
+           "moduli": True, "strict": True}
+    return cfg, peer
+
+
+def run_fail_grid(ctx, st, cases_adv, cases_neg, full):
+    """For both roles: every table entry v of every algorithm type agreed (control), and with v agreed every
+    one of the 8 categories emptied in turn -> IncompatiblePeer, whatever v is (AEAD ciphers, etm MACs,
+    gss/gex kex, certificate key names, zlib included).  quick: each (role, category, value) once with the
+    emptied category rotating over the other types' values; thorough (`full`): the whole product."""
+    rng = ctx.rng
+    for role in ("Client", "Server"):
+        for typ in CATS:
+            for vi, v in enumerate(grid_values(st, role, typ)):
+                cats = list(range(8)) if full else [(vi + k) % 8 for k in (0, 3, 5)]
+                # the MAC and compression categories come last in _parse_kex_init: always empty them too
+                for e in [None] + sorted(set(cats + ([4, 5] if typ == "ciphers" else []))):
+                    cfg, peer = grid_case(rng, st, role, typ, v, e)
+                    kind = "grid-ok" if e is None else "grid-empty-" + CAT8[e]
+                    _, own, outcome = run_single(ctx, st, role, cfg, peer, kind, cases_adv, cases_neg, check_adv=False)
+                    k = "fail-grid/%s/%s=%s" % (role.lower(), typ, v)
+                    ctx.dist[k] = ctx.dist.get(k, 0) + 1
+                    if e is None:
+                        if outcome[0] != "ok":
+                            ctx.disagree("grid control case did not negotiate (generator problem?)",
+                                         case={"role": role, "cfg": cfg, "peer": peer}, impl=outcome)
+                    elif expected_from_messages(role, own, peer)[e] is not None:
+                        ctx.disagree("grid case does not empty the intended category (generator problem)",
+                                     case={"role": role, "cfg": cfg, "peer": peer, "empty": CAT8[e]})
+
+
+def run_disjoint_pairs(ctx, st, cases_adv, cases_neg):
+    """Two real transports, every cipher in turn agreed (AEAD ones included), whose MAC (then compression,
+    then cipher s2c... ) lists are disjoint: both must raise IncompatiblePeer, neither may record an
+    algorithm the other never offered."""
+    allk = sorted(st["keys"])
+    macs = st["tables"]["macs"]
+    for ci, c in enumerate(st["tables"]["ciphers"]):
+        h = len(macs) // 2
+        rot = macs[ci % len(macs):] + macs[:ci % len(macs)]
+        run_pair(ctx, st, plain_cfg(prefs={"ciphers": [c], "macs": rot[:h]}),
+                 plain_cfg(allk, prefs={"ciphers": [c], "macs": rot[h:]}), cases_adv, cases_neg, "disjoint-macs")
+        run_pair(ctx, st, plain_cfg(prefs={"ciphers": [c], "compression": ["zlib", "zlib@openssh.com"]}),
+                 plain_cfg(allk, prefs={"ciphers": [c]}), cases_adv, cases_neg, "disjoint-compression")
+        run_pair(ctx, st, plain_cfg(prefs={"ciphers": [c], "macs": rot[:h]}),
+                 plain_cfg(allk, prefs={"ciphers": [c], "macs": rot[h - 1:]}), cases_adv, cases_neg, "one-common-mac")
 
 
 # ---------------------------------------------------------------------------------------------
@@ -958,7 +1056,9 @@ def run(ctx):
                 "table names, names of our own list reordered, unknown names, duplicates, empty lists, 0-3 markers "
                 "at random positions (also in non-kex lists), one sabotaged category in 30%; a dedicated stream per "
                 "role and category with >= 2 common algorithms ranked differently by the two sides and the other "
-                "categories compatible (counts: ranked-differently/<role>/<cat>); sequences: several transports built "
+                "categories compatible (counts: ranked-differently/<role>/<cat>); a grid agreeing on every table entry "
+                "of every type (AEAD ciphers, etm MACs, gss/gex kex, cert key names, zlib) and, with that value "
+                "agreed, emptying each of the 8 categories in turn (counts: fail-grid/<role>/<type>=<value>); sequences: several transports built "
                 "from one caller-owned disabled_algorithms dict (after a no-moduli server), configuration through "
                 "use_compression / connect(hostkey=) / SecurityOptions with preferred_* reads in between, second "
                 "negotiation on the same object - KEXINIT compared with the final configuration; plus paired real "
@@ -999,6 +1099,9 @@ def run(ctx):
             if reached < 4:
                 ctx.disagree("generator failed to produce >= 4 reached ranked-differently cases",
                              case={"role": role, "category": CAT8[i], "reached": reached})
+    # fail-iff per emptied category x per agreed value of the other categories (AEAD ciphers included)
+    run_fail_grid(ctx, st, cases_adv, cases_neg, full=ctx.thorough)
+    run_disjoint_pairs(ctx, st, cases_adv, cases_neg)
     # second use / other entry points / caches: sequences on shared configuration objects
     seq_targeted(ctx, st, cases_adv, cases_neg)
     for _ in range(60 * scale):
